@@ -23,6 +23,9 @@ type btcTx struct {
 	raw  []byte
 	txid []byte
 	outs []*wire.TxOut
+	// set when the transaction is a coinbase that is itself a well-formed version-0 deposit
+	depKey *keys.BtcKey
+	depEvm []byte
 }
 
 type btcBlock struct {
@@ -302,9 +305,13 @@ func (s *bitcoinStream) voteBlockFirst(r *tr.Rng, first *btcTx) {
 // coinbase: first transaction of a block; frequently itself a well-formed deposit (maturity rule)
 func (s *bitcoinStream) coinbase(r *tr.Rng) *btcTx {
 	p, _ := s.w.Btc.Params.Get(s.w.Ctx)
-	if r.Chance(50) {
-		sc, _ := s.depositOutputs(s.cur(), 0, s.evms[0], p.DepositMagicPrefix)
-		return mkTx(r, []*wire.TxOut{wire.NewTxOut(int64(p.MinDepositAmount+uint64(r.Intn(50000))), sc)}, 1)
+	if r.Chance(60) {
+		k, evm := s.keys[r.Intn(len(s.keys))], s.evms[r.Intn(len(s.evms))]
+		if sc, _ := s.depositOutputs(k, 0, evm, p.DepositMagicPrefix); sc != nil {
+			tx := mkTx(r, []*wire.TxOut{wire.NewTxOut(int64(p.MinDepositAmount+uint64(r.Intn(50000))), sc)}, 1)
+			tx.depKey, tx.depEvm = k, evm
+			return tx
+		}
 	}
 	return mkTx(r, []*wire.TxOut{wire.NewTxOut(5000000000, r.Bytes(34))}, 1)
 }
@@ -360,7 +367,14 @@ func (s *bitcoinStream) Gen(r *tr.Rng) *tr.Op {
 			s.voteBlocks(r, 1)
 		}
 	default:
-		s.push(tr.NewOp("dequeue/commit="+tr.B(r.Chance(70)), "btc.dequeue", "commit", tr.B(r.Chance(70))))
+		if (s.k/90)%3 == 1 && !r.Chance(10) {
+			// accumulation phase: the queues outgrow the per-block caps (16 deposits, 8 withdrawals) before the next hand-over
+			s.genDepositTxs(r)
+			s.voteBlocks(r, 1)
+			s.genDeposits(r)
+		} else {
+			s.push(tr.NewOp("dequeue/commit="+tr.B(r.Chance(70)), "btc.dequeue", "commit", tr.B(r.Chance(70))))
+		}
 	}
 	if len(s.q) == 0 {
 		s.push(tr.NewOp("dump", "dump.btc"))
@@ -481,6 +495,16 @@ func (s *bitcoinStream) genDepositTxs(r *tr.Rng) {
 			nin = 2
 		}
 		tx := mkTx(r, outs, nin)
+		switch r.Intn(40) {
+		case 0: // the block commits to bytes that are a transaction plus one byte: only the parser's "no trailing bytes" rule refuses it
+			tx.raw = append(append([]byte{}, tx.raw...), byte(r.Intn(2)))
+			tx.txid = goatcrypto.DoubleSHA256Sum(tx.raw)
+			cls += "/leaf-with-trailing-byte"
+		case 1: // ... or to a transaction whose lock time is cut short: only the parser's error refuses it
+			tx.raw = append([]byte{}, tx.raw[:len(tx.raw)-1-r.Intn(3)]...)
+			tx.txid = goatcrypto.DoubleSHA256Sum(tx.raw)
+			cls += "/leaf-truncated"
+		}
 		s.mempool = append(s.mempool, tx)
 		depCands = append(depCands, &depCand{tx: tx, version: version, outIdx: outIdx, evm: evm, key: key, cls: cls})
 	}
@@ -525,18 +549,17 @@ func (s *bitcoinStream) genDeposits(r *tr.Rng) {
 	}
 	for i := 0; i < n; i++ {
 		// coinbase deposits (maturity rule) or ordinary candidates
-		if r.Chance(10) && len(s.blocks) > 0 {
+		if r.Chance(18) && len(s.blocks) > 0 {
 			hs := make([]uint64, 0)
 			for h := range s.blocks {
 				hs = append(hs, h)
 			}
 			sort.Slice(hs, func(i, j int) bool { return hs[i] < hs[j] })
 			h := hs[r.Intn(len(hs))]
-			if r.Chance(50) { // aim at the maturity boundary
-				for _, x := range hs {
-					if x+100 == tip || x+99 == tip {
-						h = x
-					}
+			if r.Chance(75) { // aim at the maturity boundary: tip = h+99 (refused), h+100 (first accepted), h+101
+				want := tip - uint64(tr.Pick(r, 99, 100, 100, 101))
+				if _, ok := s.blocks[want]; ok {
+					h = want
 				}
 			}
 			b := s.blocks[h]
@@ -552,7 +575,12 @@ func (s *bitcoinStream) genDeposits(r *tr.Rng) {
 				c += "/aliased-index"
 			}
 			headers[h] = b.header
-			add(item(0, h, idx, b.txs[0].raw, 0, b.proof(0), s.evms[0], s.cur()), c)
+			ck, cevm := s.cur(), s.evms[0]
+			if b.txs[0].depKey != nil { // the coinbase pays to a deposit address: only the maturity rule can refuse it
+				ck, cevm = b.txs[0].depKey, b.txs[0].depEvm
+				c += "/is-deposit"
+			}
+			add(item(0, h, idx, b.txs[0].raw, 0, b.proof(0), cevm, ck), c)
 			continue
 		}
 		if len(depCands) == 0 {
@@ -710,7 +738,12 @@ func parseU(s string) uint64 {
 func (s *bitcoinStream) genBridgeReq(r *tr.Rng) {
 	var ws, rbf, cancel, tax, conf, min []string
 	cls := ""
-	for i := r.Intn(3); i > 0; i-- {
+	nw := r.Intn(3)
+	if r.Chance(7) { // burst: more than the per-block caps of the system-transaction queue (8 paid / rejected)
+		nw = 9 + r.Intn(12)
+		cls += "+burst"
+	}
+	for i := nw; i > 0; i-- {
 		a := s.genAddr(r)
 		id := s.nextWid
 		if r.Chance(5) && id > 1 { // id reuse (excluded by the environment hypothesis; exercised anyway)
@@ -897,6 +930,10 @@ func (s *bitcoinStream) genProcess(r *tr.Rng) {
 	cls := "process"
 	var ids []uint64
 	n := 1 + r.Intn(3)
+	if r.Chance(10) { // burst: pay more withdrawals at once than one block hands over (cap 8)
+		n = 9 + r.Intn(8)
+		cls += "/burst"
+	}
 	for i := 0; i < n && len(cands) > 0; i++ {
 		j := r.Intn(len(cands))
 		ids = append(ids, cands[j])
